@@ -16,6 +16,7 @@ import z3
 
 from symx import core, stubs
 from symx.core import SymReal, SymBool
+from symx.timeproxy import SymTime
 from harness.episode import Episode, Inputs, ASSUMPTIONS as _A
 from tradingenv import rewards as _rewards_mod
 from tradingenv.events import EventNBBO
@@ -25,7 +26,7 @@ PROPERTY = "C02"
 
 
 def _collect(out, acc):
-    if isinstance(out, SymReal):
+    if isinstance(out, (SymReal, SymTime)):
         acc.append(out)
     elif isinstance(out, dict):
         for v in out.values():
@@ -51,7 +52,8 @@ def _outputs(ep, step_out):
     out["holdings"] = list(env.broker._holdings_quantity.values()) + list(env.broker._holdings_margins.values())
     out["books"] = [[env.exchange[c].bid_price, env.exchange[c].ask_price] for c in ep.contracts]
     out["seen"] = [[getattr(e["event"], "bid_price", None), getattr(e["event"], "ask_price", None),
-                    getattr(e["event"], "payload", None)] for e in ep.log]
+                    getattr(e["event"], "payload", None), e["time"], e["now"]] for e in ep.log]
+    out["record_times"] = [tr[i].time for i in range(len(tr))]
     st = env.state
     if getattr(st, "features", None):
         out["features"] = [[v for v in f.history.values()] for f in st.features]
@@ -59,8 +61,13 @@ def _outputs(ep, step_out):
 
 
 def _payload_vars(ep):
-    """name of input variable -> event it belongs to."""
+    """name of input variable -> event it belongs to (payloads of every event; for the freely
+    placed events also the stamp itself: a stamp after the cut must not show in any output)."""
     m = {}
+    for ev in ep.free:
+        if isinstance(ev.time, SymTime):
+            for n in ev.time.vs:
+                m[n] = ev
     for ev in ep.events:
         for attr in ("bid_price", "ask_price", "payload"):
             v = getattr(ev, attr, None)
@@ -89,7 +96,7 @@ def _check_sym(c, ep, label, terms, decisions_upto, cut, L, pv):
         if cj.tag != "dec":
             continue
         for n in _conj_vars(c, cj):
-            if n in pv:
+            if n in pv and c.var_kind.get(n) == "real":      # payloads; ordering decisions on stamps are legitimate
                 dec_suspects.setdefault(n, []).append(cj)
     ok = True
     for n in sorted(set(suspects) | set(dec_suspects)):
@@ -102,7 +109,7 @@ def _check_sym(c, ep, label, terms, decisions_upto, cut, L, pv):
         # stage 2: does any output really depend on it?
         v = c.vars[n]
         c.fresh_n += 1
-        alt = z3.Real("%s!alt%d" % (n, c.fresh_n))
+        alt = (z3.Real if c.var_kind.get(n) == "real" else z3.Int)("%s!alt%d" % (n, c.fresh_n))
         vs = {n}
         for t in suspects.get(n, []):
             vs |= t.vs
@@ -116,7 +123,7 @@ def _check_sym(c, ep, label, terms, decisions_upto, cut, L, pv):
             leak = True                    # a forked decision read a value stamped after the cut
             why = "a branch decision taken before the cut reads %s" % n
         elif diffs:
-            s = z3.SolverFor("QF_NRA") if any(t.nl for t in suspects[n]) else z3.Solver()
+            s = z3.SolverFor("QF_NRA") if any(getattr(t, "nl", False) for t in suspects[n]) else z3.Solver()
             s.set("timeout", c.timeout_ms)
             s.add(*pcs)
             s.add(*pcs_alt)
@@ -297,8 +304,9 @@ ANCHORS = ["transmitter.py:Transmitter._create_partitions", "transmitter.py:Tran
            "rewards.py:RewardSimpleReturn.calculate"]
 EXPECT_REACH = ["episode"]
 ASSUMPTIONS = _A + ["payloads (quote prices of every bar and extra quote, custom-event payload) symbolic; actions concrete",
-                    "perturbations considered: the values carried by events stamped after the cut; changing the number or "
-                    "the stamps of later events is not covered",
+                    "perturbations considered: the values carried by events stamped after the cut, and the stamps of the "
+                    "freely placed events (a stamp after the cut must not occur in any output); changing the *number* of "
+                    "later events is not covered",
                     "dependence is decided on the z3 terms produced by the real code: syntactic occurrence (sound "
                     "over-approximation), then feasibility of 'stamped after the cut', then a self-composition query; a "
                     "forked branch decision that reads a later value counts as a leak"]
